@@ -246,7 +246,7 @@ func (f *function) evaluate() (data string, changed bool, err error) {
 
 	var buf bytes.Buffer
 	b64 := base64.NewEncoder(base64.StdEncoding, &buf)
-	if err := pickle.NewEncoder(b64, pickle.PicklerFunc(envPickler)).Encode(f.function); err != nil {
+	if err := pickle.NewEncoder(b64, newEnvPickler()).Encode(f.function); err != nil {
 		return "", false, err
 	}
 	b64.Close()
@@ -290,10 +290,27 @@ func (f *function) load() error {
 // pickler.
 func functionEnv(f starlark.Callable) (starlark.Value, error) {
 	var buf bytes.Buffer
-	if err := pickle.NewEncoder(&buf, pickle.PicklerFunc(envPickler)).Encode(f); err != nil {
+	if err := pickle.NewEncoder(&buf, newEnvPickler()).Encode(f); err != nil {
 		return nil, err
 	}
 	return pickle.NewDecoder(&buf, pickle.UnpicklerFunc(envUnpickler)).Decode()
+}
+
+// newEnvPickler returns the pickler for one encoding of a function environment. A function
+// that is reached again while it is still being pickled (direct or mutual recursion through
+// globals or free variables) is pickled as a reference by name instead of being expanded
+// again, which would never terminate.
+func newEnvPickler() pickle.Pickler {
+	inProgress := map[*starlark.Function]struct{}{}
+	return pickle.PicklerFunc(func(x starlark.Value) (module, name string, args starlark.Tuple, err error) {
+		if fn, ok := x.(*starlark.Function); ok {
+			if _, ok := inProgress[fn]; ok {
+				return "dawn", "Recursion", starlark.Tuple{starlark.String(fn.Name())}, nil
+			}
+			inProgress[fn] = struct{}{}
+		}
+		return envPickler(x)
+	})
 }
 
 // envPickler provides support for pickling functions and modules.
@@ -336,6 +353,11 @@ func envUnpickler(module, name string, args starlark.Tuple) (starlark.Value, err
 			return nil, fmt.Errorf("expcted 1 arg, got %v", len(args))
 		}
 		return args[0], nil
+	case "Recursion":
+		if len(args) != 1 {
+			return nil, fmt.Errorf("expcted 1 arg, got %v", len(args))
+		}
+		return starlark.Tuple{starlark.String("recursive reference"), args[0]}, nil
 	case "Builtin":
 		if len(args) != 0 {
 			return nil, fmt.Errorf("expected 0 args, got %v", len(args))
